@@ -1244,6 +1244,50 @@ def run(chk):
         if over:
             chk.violation(r_as, key + ":default", "assign_deck (%s): a defaulted deck entry (n*) overwrites a cell whose status is %s, i.e. a cell that already has a value: what an earlier ADD / MULTIPLY / MINVALUE / OPERATE or the top-layer distribution left there is reset to the keyword default by a later assignment that merely defaults the cell" % (where, over), ad["file"], n["l"])
 
+    # ---- C12.typed: the integer branch of a handler is the floating-point branch for another element type
+    r_ty = chk.rule("C12.typed", "keyword handlers of FieldProps.cpp that dispatch on the element type of the array (`if (supported<double>(kw)) {..} if (supported<int>(kw)) {..}` on the same name): (a) the integer branch is not empty - a record naming an integer array is applied or rejected, never dropped; (b) a function that both branches call with a cell list (an argument of the Box::cell_index list type) gets the same list expression in both - the same keyword never touches different cells depending on the element type of the array", floor=2)
+    tfx = chk.facts([FP])
+    tnorm = lambda t_: re.sub(r"\b(int|double)\b", "T", t_)
+    for f in tfx.fns:
+        if not f.get("body") or not f["file"].endswith("FieldProps.cpp"):
+            continue
+        br = {}
+        for n in walk(f["body"]):
+            if n["k"] == "If" and isinstance(n.get("cond"), dict):
+                for c in walk(n["cond"]):
+                    if c.get("k") == "Call" and (c.get("fn") or "").endswith("::supported") and c.get("targs") and c.get("a"):
+                        br.setdefault(show(c["a"][0]), {}).setdefault(c["targs"][0], []).append(n)
+        for kwv, d in sorted(br.items()):
+            if "int" not in d or "double" not in d:
+                continue
+            for ni in d["int"]:
+                key = "%s:%s@%d" % (f["n"], kwv, ni["l"])
+                si = [s_ for s_ in stmt_list(ni["then"]) if s_["k"] != "Continue"]
+                ti = [tnorm(show(s_)) for s_ in si]
+                sd = [s_ for nd in d["double"] for s_ in stmt_list(nd["then"])]
+                td = [tnorm(show(s_)) for s_ in sd]
+                chk.instance(r_ty, key, sample=dict(function=f["q"], array=kwv, int_branch=len(ti), double_branch=len(td)))
+                if not ti:
+                    chk.violation(r_ty, key, "%s: the branch for integer arrays (`supported<int>(%s)`) does nothing: the record is dropped without a message, while the floating-point branch applies it" % (f["q"], kwv), f["file"], ni["l"])
+                    continue
+                # (c) same callee -> same list argument
+                def calls_(sts):
+                    out = {}
+                    for s_ in sts:
+                        for x in walk(s_):
+                            nm = (x.get("m") if x.get("k") == "MCall" else (x.get("fn") or "").split("::")[-1] if x.get("k") == "Call" else None)
+                            if nm and x.get("a"):
+                                for a_ in x["a"]:
+                                    ta = a_.get("t") or strip(a_).get("t") or ""
+                                    sa = show(strip(a_))
+                                    if "index_list" in sa or "cell_index" in ta:
+                                        out.setdefault(nm, []).append(sa)
+                    return out
+                ci, cd = calls_(si), calls_(sd)
+                for nm, lists in sorted(ci.items()):
+                    if nm in cd and not set(lists) <= set(cd[nm]):
+                        chk.violation(r_ty, key, "%s: the integer branch calls %s over the cells `%s`, the floating-point branch over `%s`: the same keyword touches different cells depending on the element type of the array" % (f["q"], nm, ", ".join(lists), ", ".join(sorted(set(cd[nm])))), f["file"], ni["l"])
+
     from verif import fallthrough
     fallthrough.run(chk, "C12", floor=2)
 
